@@ -57,6 +57,7 @@ def generate(seed, tier, prop):
             "rng_mode": r.choice(["honest", "honest", "rare"]),
             "perm_mode": r.choice(["honest", "honest", "honest", "identity", "reverse", "transpose"]),
             "randint_mode": r.choice(["honest", "honest", "honest", "allequal"]),
+            "second_fit": r.random() < 0.25,
         },
         "faults": faults,
     }
@@ -107,369 +108,386 @@ def execute(plan, prop):
                 ok = ok and np.array_equal(bases, bases_copy) and bases.dtype == bases_copy.dtype
             return ok
 
-        mutated = {"at": None}
-        epoch_of_record = []  # per captured batch: epoch index
-        cur_epoch = {"e": None}
+        fits = []
+        nfits = 2 if cfg.get("second_fit") else 1
+        for fi in range(nfits):
+            log_start = len(run.log.entries)
+            initial = params_snapshot(state)
+            if fi > 0:
+                # a second training run on the same state (new optimizer, history continues)
+                state.stop_training = False
+                rng.stream(plan["sub"] + 7919 * fi, mode=cfg.get("rng_mode", "honest"), rare=0.1, perm_mode=cfg.get("perm_mode", "honest"), randint_mode=cfg.get("randint_mode", "honest"))
+            fit_faults = plan.get("faults", ()) if fi == 0 else ()
+            mutated = {"at": None}
+            epoch_of_record = []  # per captured batch: epoch index
+            cur_epoch = {"e": None}
 
-        def handler(kind, args, idx, nn_state, seq):
-            if kind == "ES":
-                cur_epoch["e"] = args[0]
-            if judge07 and mutated["at"] is None and not data_unchanged():
-                mutated["at"] = (kind, tuple(args))
-            if kind == "TS":
-                rec.armed = True
+            def handler(kind, args, idx, nn_state, seq):
+                if kind == "ES":
+                    cur_epoch["e"] = args[0]
+                if judge07 and mutated["at"] is None and not data_unchanged():
+                    mutated["at"] = (kind, tuple(args))
+                if kind == "TS":
+                    rec.armed = True
 
-        # ---- reference gradient, computed at the parameters the step will see ----
-        refs = []  # parallel to cap.records
-        chain = {"ref": None}
+            # ---- reference gradient, computed at the parameters the step will see ----
+            refs = []  # parallel to cap.records
+            chain = {"ref": None}
 
-        def before_batch(record, samples_batch, neg_batch, bases_batch):
-            epoch_of_record.append(cur_epoch["e"])
-            if not judge06:
-                refs.append(None)
-                return
-            ref = {"pos": None, "formula": None, "refiner": None, "err": None}
-            try:
-                B = float(record["samples"].shape[0]) if record["samples_dim"] >= 2 else 1.0
-                if scfg["type"] == "positive":
-                    f = Formula(raw_params(state.rbm_am))
-                    ref["pos"] = [f.eff_energy_grad_sum(record["samples"].reshape(-1, nv)) / B]
+            def before_batch(record, samples_batch, neg_batch, bases_batch):
+                epoch_of_record.append(cur_epoch["e"])
+                if not judge06:
+                    refs.append(None)
+                    return
+                ref = {"pos": None, "formula": None, "refiner": None, "err": None}
+                try:
+                    B = float(record["samples"].shape[0]) if record["samples_dim"] >= 2 else 1.0
+                    if scfg["type"] == "positive":
+                        f = Formula(raw_params(state.rbm_am))
+                        ref["pos"] = [f.eff_energy_grad_sum(record["samples"].reshape(-1, nv)) / B]
+                    else:
+                        g = state.gradient(samples_batch, bases=bases_batch)
+                        ref["pos"] = [
+                            (x.detach().numpy().astype(np.float64) / B) if isinstance(x, torch.Tensor) else np.zeros(getattr(state, net).num_pars) + float(x)
+                            for x, net in zip(g, state.networks)
+                        ]
+                        f = Formula(raw_params(state.rbm_am))
+                    ref["formula"] = f
+                    gr = GibbsRefiner(f, use_table=False)
+                    gr.reset(record["neg"].reshape(-1, nv), 10 ** 9)
+                    ref["refiner"] = gr
+                    ref["hist"] = [gr.v.copy()]
+                    chain["ref"] = ref
+                except Exception as exc:  # noqa: BLE001
+                    ref["err"] = exc
+                refs.append(ref)
+
+            def after_batch(record):
+                chain["ref"] = None
+
+            def rng_listener(kindr, arrays):
+                ref = chain["ref"]
+                if ref is None or ref["refiner"] is None:
+                    return
+                gr = ref["refiner"]
+                if kindr in ("bern", "other:Tensor.bernoulli", "other:Tensor.bernoulli_"):
+                    before = gr.step
+                    gr.feed(arrays[0], arrays[1])
+                    if gr.step > before:
+                        ref["hist"].append(gr.v.copy())
                 else:
-                    g = state.gradient(samples_batch, bases=bases_batch)
-                    ref["pos"] = [
-                        (x.detach().numpy().astype(np.float64) / B) if isinstance(x, torch.Tensor) else np.zeros(getattr(state, net).num_pars) + float(x)
-                        for x, net in zip(g, state.networks)
-                    ]
-                    f = Formula(raw_params(state.rbm_am))
-                ref["formula"] = f
-                gr = GibbsRefiner(f, use_table=False)
-                gr.reset(record["neg"].reshape(-1, nv), 10 ** 9)
-                ref["refiner"] = gr
-                ref["hist"] = [gr.v.copy()]
-                chain["ref"] = ref
-            except Exception as exc:  # noqa: BLE001
-                ref["err"] = exc
-            refs.append(ref)
+                    gr.status = "structure"
 
-        def after_batch(record):
-            chain["ref"] = None
+            rng.listeners.append(rng_listener)
+            rec = OptRecorder(run, state)
+            cap = BatchCapture(run, state, before_batch=before_batch, after_batch=after_batch)
+            opt_name = cfg.get("optimizer", "sgd")
+            base_opt = {"sgd": torch.optim.SGD, "sgd_momentum": torch.optim.SGD, "adam": torch.optim.Adam}[opt_name]
+            opt_args = {"momentum": 0.5} if opt_name == "sgd_momentum" else None
+            sched = sargs = None
+            if cfg.get("scheduler") == "step":
+                sched, sargs = recording_scheduler(torch.optim.lr_scheduler.StepLR, rec), {"step_size": 1, "gamma": cfg["gamma"]}
+            elif cfg.get("scheduler") == "exp":
+                sched, sargs = recording_scheduler(torch.optim.lr_scheduler.ExponentialLR, rec), {"gamma": cfg["gamma"]}
+            with cap:
+                info = run_fit(
+                    run,
+                    state,
+                    tc,
+                    data_in,
+                    bases,
+                    n_wit=1,
+                    faults=fit_faults,
+                    handler=handler,
+                    optimizer=recording_optimizer(base_opt, rec),
+                    optimizer_args=opt_args,
+                    scheduler=sched,
+                    scheduler_args=sargs,
+                )
+            rng.listeners.remove(rng_listener)
+            seamed = rng.check_global()
+            fits.append(dict(final=params_snapshot(state), info=info, cap=cap, rec=rec, refs=refs, epoch_of_record=epoch_of_record, initial=initial, mutated=mutated, seamed=seamed, sched=sched, opt_name=opt_name, log_start=log_start, log_end=len(run.log.entries)))
 
-        def rng_listener(kindr, arrays):
-            ref = chain["ref"]
-            if ref is None or ref["refiner"] is None:
-                return
-            gr = ref["refiner"]
-            if kindr in ("bern", "other:Tensor.bernoulli", "other:Tensor.bernoulli_"):
-                before = gr.step
-                gr.feed(arrays[0], arrays[1])
-                if gr.step > before:
-                    ref["hist"].append(gr.v.copy())
-            else:
-                gr.status = "structure"
+    trace_all = []
+    nontrivial_any = False
+    for fi, F in enumerate(fits):
+        info, cap, rec, refs, epoch_of_record, initial, mutated, seamed, sched, opt_name = (F[k] for k in ("info", "cap", "rec", "refs", "epoch_of_record", "initial", "mutated", "seamed", "sched", "opt_name"))
+        log_entries = run.log.entries[F["log_start"] : F["log_end"]]
+        if info["raised"] is not None:
+            run.lib_exception(info["raised"], "fit", N=N, type=scfg["type"], pos_bs=tc["pos_bs"], neg_bs=tc.get("neg_bs"))
+        items, _ = protocol.extract(run, 1, upto=F["log_end"], frm=F["log_start"])
+        stopped = any(it[0] == "stop" for it in items)
+        evs = [it for it in items if it[0] == "ev"]
+        nb = ceil(N / tc["pos_bs"])
+        neg_bs = tc.get("neg_bs") or tc["pos_bs"]
+        records = cap.records
+        trace = [scfg["type"], N, tc["pos_bs"], neg_bs, tc["k"], cfg.get("perm_mode"), cfg.get("randint_mode"), cfg.get("optimizer"), cfg.get("scheduler")]
+        trace.append([it[1] if it[0] == "ev" else "STOP" for it in items])
 
-        rng.listeners.append(rng_listener)
-        rec = OptRecorder(run, state)
-        cap = BatchCapture(run, state, before_batch=before_batch, after_batch=after_batch)
-        opt_name = cfg.get("optimizer", "sgd")
-        base_opt = {"sgd": torch.optim.SGD, "sgd_momentum": torch.optim.SGD, "adam": torch.optim.Adam}[opt_name]
-        opt_args = {"momentum": 0.5} if opt_name == "sgd_momentum" else None
-        sched = sargs = None
-        if cfg.get("scheduler") == "step":
-            sched, sargs = recording_scheduler(torch.optim.lr_scheduler.StepLR, rec), {"step_size": 1, "gamma": cfg["gamma"]}
-        elif cfg.get("scheduler") == "exp":
-            sched, sargs = recording_scheduler(torch.optim.lr_scheduler.ExponentialLR, rec), {"gamma": cfg["gamma"]}
-        with cap:
-            info = run_fit(
-                run,
-                state,
-                tc,
-                data_in,
-                bases,
-                n_wit=1,
-                faults=plan.get("faults", ()),
-                handler=handler,
-                optimizer=recording_optimizer(base_opt, rec),
-                optimizer_args=opt_args,
-                scheduler=sched,
-                scheduler_args=sargs,
-            )
-        rng.listeners.remove(rng_listener)
-        seamed = rng.check_global()
+        n_bs = sum(1 for it in evs if it[1] == "BS")
+        captured = len(records) == n_bs and info["raised"] is None
+        if info["raised"] is None and len(records) != n_bs:
+            run.inconclusive["batch_capture_bypassed"] += 1
 
-    if info["raised"] is not None:
-        run.lib_exception(info["raised"], "fit", N=N, type=scfg["type"], pos_bs=tc["pos_bs"], neg_bs=tc.get("neg_bs"))
-    items, _ = protocol.extract(run, 1)
-    stopped = any(it[0] == "stop" for it in items)
-    evs = [it for it in items if it[0] == "ev"]
-    nb = ceil(N / tc["pos_bs"])
-    neg_bs = tc.get("neg_bs") or tc["pos_bs"]
-    records = cap.records
-    trace = [scfg["type"], N, tc["pos_bs"], neg_bs, tc["k"], cfg.get("perm_mode"), cfg.get("randint_mode"), cfg.get("optimizer"), cfg.get("scheduler")]
-    trace.append([it[1] if it[0] == "ev" else "STOP" for it in items])
+        # =====================================================================
+        # C07: conservation / exactly-once / pairing / immutability
+        # =====================================================================
+        if judge07 and info["raised"] is None:
+            if mutated["at"] is not None:
+                run.violate("7-immutable", f"caller's data or bases changed during training (first seen at {mutated['at']})", form=cfg["data"]["form"])
+            elif not data_unchanged():
+                run.violate("7-immutable", "caller's data or bases changed by fit", form=cfg["data"]["form"])
+            if captured:
+                def key(row, brow):
+                    return tuple(float(x) for x in row) + (tuple(str(b) for b in brow) if brow is not None else ())
 
-    n_bs = sum(1 for it in evs if it[1] == "BS")
-    captured = len(records) == n_bs and info["raised"] is None
-    if info["raised"] is None and len(records) != n_bs:
-        run.inconclusive["batch_capture_bypassed"] += 1
-
-    # =====================================================================
-    # C07: conservation / exactly-once / pairing / immutability
-    # =====================================================================
-    if judge07 and info["raised"] is None:
-        if mutated["at"] is not None:
-            run.violate("7-immutable", f"caller's data or bases changed during training (first seen at {mutated['at']})", form=cfg["data"]["form"])
-        elif not data_unchanged():
-            run.violate("7-immutable", "caller's data or bases changed by fit", form=cfg["data"]["form"])
-        if captured:
-            def key(row, brow):
-                return tuple(float(x) for x in row) + (tuple(str(b) for b in brow) if brow is not None else ())
-
-            want = sorted(key(data_np[i], None if bases is None else bases_copy[i]) for i in range(N))
-            zrows = None
-            if bases is not None:
-                zmask = (bases_copy == "Z").all(axis=1)
-                zrows = {tuple(float(x) for x in data_np[i]) for i in range(N) if zmask[i]}
-            allrows = {tuple(float(x) for x in row) for row in data_np}
-            # split records per epoch
-            epochs_seen = []
-            for e, recd in zip(epoch_of_record, records):
-                if not epochs_seen or epochs_seen[-1][0] != e:
-                    epochs_seen.append((e, []))
-                epochs_seen[-1][1].append(recd)
-            # which epochs completed before any stop request?
-            first_stop = next((i for i, it in enumerate(items) if it[0] == "stop"), None)
-            complete = set()
-            for i, it in enumerate(items):
-                if it[0] == "ev" and it[1] == "EE" and (first_stop is None or i < first_stop):
-                    complete.add(it[2][0])
-            for e, recs in epochs_seen:
-                got = []
-                ok_shapes = True
-                for bi, rd in enumerate(recs):
-                    s = rd["samples"]
-                    if s.ndim != 2 or s.shape[1] != nv:
-                        run.violate("7-shape", f"epoch {e} batch {bi}: positive batch has shape {s.shape}", N=N, pos_bs=tc["pos_bs"])
-                        ok_shapes = False
-                        continue
-                    if bases is not None:
-                        bb = rd["bases"]
-                        if bb is None or bb.ndim != 2 or bb.shape != s.shape:
-                            run.violate("7-pair", f"epoch {e} batch {bi}: bases batch shape {None if bb is None else bb.shape} does not match samples {s.shape}", N=N, pos_bs=tc["pos_bs"])
+                want = sorted(key(data_np[i], None if bases is None else bases_copy[i]) for i in range(N))
+                zrows = None
+                if bases is not None:
+                    zmask = (bases_copy == "Z").all(axis=1)
+                    zrows = {tuple(float(x) for x in data_np[i]) for i in range(N) if zmask[i]}
+                allrows = {tuple(float(x) for x in row) for row in data_np}
+                # split records per epoch
+                epochs_seen = []
+                for e, recd in zip(epoch_of_record, records):
+                    if not epochs_seen or epochs_seen[-1][0] != e:
+                        epochs_seen.append((e, []))
+                    epochs_seen[-1][1].append(recd)
+                # which epochs completed before any stop request?
+                first_stop = next((i for i, it in enumerate(items) if it[0] == "stop"), None)
+                complete = set()
+                for i, it in enumerate(items):
+                    if it[0] == "ev" and it[1] == "EE" and (first_stop is None or i < first_stop):
+                        complete.add(it[2][0])
+                for e, recs in epochs_seen:
+                    got = []
+                    ok_shapes = True
+                    for bi, rd in enumerate(recs):
+                        s = rd["samples"]
+                        if s.ndim != 2 or s.shape[1] != nv:
+                            run.violate("7-shape", f"epoch {e} batch {bi}: positive batch has shape {s.shape}", N=N, pos_bs=tc["pos_bs"])
                             ok_shapes = False
                             continue
-                    for ri in range(s.shape[0]):
-                        got.append(key(s[ri], None if bases is None else rd["bases"][ri]))
-                    last = bi == len(recs) - 1
-                    full = s.shape[0] == tc["pos_bs"]
-                    if not full and not last:
-                        run.violate("7-size", f"epoch {e} batch {bi}: {s.shape[0]} rows, batch size {tc['pos_bs']} (not the last batch)", N=N, pos_bs=tc["pos_bs"])
-                    if s.shape[0] > tc["pos_bs"]:
-                        run.violate("7-size", f"epoch {e} batch {bi}: {s.shape[0]} rows exceed batch size {tc['pos_bs']}", N=N, pos_bs=tc["pos_bs"])
-                    # negative batch provenance and size
-                    ng = rd["neg"]
-                    if ng.ndim != 2 or ng.shape[1] != nv or ng.shape[0] < 1:
-                        run.violate("7-neg", f"epoch {e} batch {bi}: negative batch has shape {ng.shape}", N=N, neg_bs=neg_bs)
-                    else:
-                        pool = zrows if zrows is not None else allrows
-                        badrow = next((tuple(float(x) for x in row) for row in ng if tuple(float(x) for x in row) not in pool), None)
-                        if badrow is not None:
-                            run.violate(
-                                "7-neg",
-                                f"epoch {e} batch {bi}: negative-phase start {badrow} is not a "
-                                + ("reference-basis (all-Z) row" if zrows is not None else "row")
-                                + " of the training data",
-                                N=N,
-                                neg_bs=neg_bs,
-                            )
-                        if ng.shape[0] > neg_bs or (ng.shape[0] < neg_bs and not last):
-                            run.violate("7-neg", f"epoch {e} batch {bi}: negative batch has {ng.shape[0]} rows, neg_batch_size={neg_bs}", N=N, neg_bs=neg_bs)
-                        if ng.shape[0] < neg_bs and last:
-                            run.probes["short_tail_neg_batch"] += 1
-                if not ok_shapes:
-                    continue
-                if e in complete:
-                    if len(recs) != nb:
-                        run.violate("7-count", f"epoch {e}: {len(recs)} batches, expected ceil({N}/{tc['pos_bs']})={nb}", N=N, pos_bs=tc["pos_bs"])
-                    if sorted(got) != want:
-                        missing = len(want) - len(got)
-                        run.violate(
-                            "7-conserve",
-                            f"epoch {e}: multiset of (row, basis-row) pairs over the positive batches differs from the caller's data"
-                            f" ({len(got)} pairs seen, {len(want)} expected)",
-                            N=N,
-                            pos_bs=tc["pos_bs"],
-                            with_bases=bases is not None,
-                            missing=missing,
-                        )
-                else:
-                    # epoch cut short: sub-multiset
-                    pool = list(want)
-                    for kx in got:
-                        if kx in pool:
-                            pool.remove(kx)
+                        if bases is not None:
+                            bb = rd["bases"]
+                            if bb is None or bb.ndim != 2 or bb.shape != s.shape:
+                                run.violate("7-pair", f"epoch {e} batch {bi}: bases batch shape {None if bb is None else bb.shape} does not match samples {s.shape}", N=N, pos_bs=tc["pos_bs"])
+                                ok_shapes = False
+                                continue
+                        for ri in range(s.shape[0]):
+                            got.append(key(s[ri], None if bases is None else rd["bases"][ri]))
+                        last = bi == len(recs) - 1
+                        full = s.shape[0] == tc["pos_bs"]
+                        if not full and not last:
+                            run.violate("7-size", f"epoch {e} batch {bi}: {s.shape[0]} rows, batch size {tc['pos_bs']} (not the last batch)", N=N, pos_bs=tc["pos_bs"])
+                        if s.shape[0] > tc["pos_bs"]:
+                            run.violate("7-size", f"epoch {e} batch {bi}: {s.shape[0]} rows exceed batch size {tc['pos_bs']}", N=N, pos_bs=tc["pos_bs"])
+                        # negative batch provenance and size
+                        ng = rd["neg"]
+                        if ng.ndim != 2 or ng.shape[1] != nv or ng.shape[0] < 1:
+                            run.violate("7-neg", f"epoch {e} batch {bi}: negative batch has shape {ng.shape}", N=N, neg_bs=neg_bs)
                         else:
-                            run.violate("7-conserve", f"epoch {e} (cut short): pair {kx} used more often than it occurs in the data", N=N, pos_bs=tc["pos_bs"], with_bases=bases is not None)
-                            break
-                if len(recs) and recs[-1]["samples"].shape[0] < tc["pos_bs"]:
-                    run.probes["tail_batch"] += 1
-            if N < tc["pos_bs"]:
-                run.probes["N_lt_batch"] += 1
-
-    # =====================================================================
-    # C06: every step applies exactly the contrastive-divergence update
-    # =====================================================================
-    if judge06 and info["raised"] is None:
-        steps = rec.steps
-        names = [(net, name) for net, name, _ in rec.named()]
-        # --- call schedule: exactly one optimizer.step between BS and its BE; one scheduler.step per epoch
-        seqk = []
-        for ent in run.log.entries:
-            if ent[0] == "ev":
-                seqk.append(ent[1])
-            elif ent[0] == "opt":
-                seqk.append("OPT")
-            elif ent[0] == "sched":
-                seqk.append("SCH")
-        state_m = "out"
-        opt_in_batch = 0
-        sch_in_epoch = 0
-        last_batch_done = False
-        for kx in seqk:
-            if kx == "BS":
-                state_m = "batch"
-                opt_in_batch = 0
-                if sch_in_epoch:
-                    run.violate("6-sched", "scheduler stepped before the epoch's last batch")
-                    break
-            elif kx == "BE":
-                if opt_in_batch != 1:
-                    run.violate("6-steps", f"{opt_in_batch} optimizer steps between a batch start and its batch end (expected exactly 1)")
-                    break
-                state_m = "epoch"
-            elif kx == "OPT":
-                if state_m != "batch":
-                    run.violate("6-steps", "optimizer.step() called outside a batch-start/batch-end window")
-                    break
-                opt_in_batch += 1
-            elif kx == "ES":
-                state_m = "epoch"
-                sch_in_epoch = 0
-            elif kx == "SCH":
-                sch_in_epoch += 1
-            elif kx == "EE":
-                if sched is not None and sch_in_epoch != 1:
-                    run.violate("6-sched", f"scheduler advanced {sch_in_epoch} times in an epoch (expected exactly once)", scheduler=cfg.get("scheduler"))
-                    break
-                state_m = "out"
-        if captured and len(steps) == len(records):
-            prev_after = initial_flat = {k2: initial[k2[0]][k2[1]] for k2 in names}
-            lr0 = tc["lr"]
-            gamma = cfg["gamma"]
-            for t, (st_, rd, ref, ep) in enumerate(zip(steps, records, refs, epoch_of_record)):
-                # continuity: nothing but the optimizer moves parameters
-                for k2 in names:
-                    if not np.array_equal(st_["before"][k2], prev_after[k2]):
-                        run.violate("6-continuity", f"step {t}: parameter {k2} changed outside optimizer.step()", t=t)
-                        break
-                prev_after = st_["after"]
-                if st_["n_opt_params"] != len(names):
-                    run.violate("6-params", f"optimizer was given {st_['n_opt_params']} parameters, the state has {len(names)}")
-                # learning rate schedule
-                if sched is not None and ep is not None:
-                    want_lr = lr0 * gamma ** (ep - tc["starting_epoch"])
-                else:
-                    want_lr = lr0
-                if not close(st_["lr"][0], want_lr, 1e-12):
-                    run.violate("6-sched", f"step {t} (epoch {ep}): learning rate {st_['lr'][0]!r}, expected {want_lr!r}", scheduler=cfg.get("scheduler"))
-                if ref is None or ref["err"] is not None or ref["pos"] is None:
-                    run.inconclusive["reference_gradient"] += 1
-                    continue
-                gr = ref["refiner"]
-                f = ref["formula"]
-                # --- the negative-phase chain: k steps from the negative batch
-                k = tc["k"]
-                vk = rd["vk"]
-                if gr.status == "mismatch" and seamed:
-                    run.violate("6-chain", f"step {t}: negative-phase chain: {gr.msg}", t=t, k=k)
-                    continue
-                chain_known = gr.status == "ok" and seamed and gr.pending is None
-                if chain_known:
-                    if len(ref["hist"]) - 1 != k:
-                        run.violate("6-chain", f"step {t}: negative-phase chain ran {len(ref['hist']) - 1} Gibbs steps from the negative batch, k={k}", t=t, k=k)
+                            pool = zrows if zrows is not None else allrows
+                            badrow = next((tuple(float(x) for x in row) for row in ng if tuple(float(x) for x in row) not in pool), None)
+                            if badrow is not None:
+                                run.violate(
+                                    "7-neg",
+                                    f"epoch {e} batch {bi}: negative-phase start {badrow} is not a "
+                                    + ("reference-basis (all-Z) row" if zrows is not None else "row")
+                                    + " of the training data",
+                                    N=N,
+                                    neg_bs=neg_bs,
+                                )
+                            if ng.shape[0] > neg_bs or (ng.shape[0] < neg_bs and not last):
+                                run.violate("7-neg", f"epoch {e} batch {bi}: negative batch has {ng.shape[0]} rows, neg_batch_size={neg_bs}", N=N, neg_bs=neg_bs)
+                            if ng.shape[0] < neg_bs and last:
+                                run.probes["short_tail_neg_batch"] += 1
+                    if not ok_shapes:
                         continue
-                    v_end = ref["hist"][k]
-                    if vk is not None and not np.array_equal(vk.reshape(v_end.shape), v_end):
-                        run.violate("6-chain", f"step {t}: state used for the negative phase is not the end of the k-step chain from the negative batch", t=t, k=k)
-                        continue
-                elif vk is not None:
-                    v_end = vk.reshape(-1, nv)
-                    run.inconclusive["chain_structure"] += 1
-                else:
-                    run.inconclusive["chain_structure"] += 1
-                    continue
-                nneg = float(rd["neg"].shape[0])
-                exp_am = ref["pos"][0] - f.eff_energy_grad_sum(v_end) / nneg
-                expected = {"rbm_am": exp_am}
-                if len(state.networks) > 1:
-                    expected["rbm_ph"] = ref["pos"][1]
-                ok_step = True
-                for net in state.networks:
-                    ptr = 0
-                    vec = expected[net]
-                    for (n2, name, p) in rec.named():
-                        if n2 != net:
-                            continue
-                        num = int(np.prod(p.shape)) if p.dim() else 1
-                        want = vec[ptr : ptr + num].reshape(tuple(p.shape))
-                        ptr += num
-                        got = st_["grad"][(net, name)]
-                        if got is None:
-                            run.violate("6-grad", f"step {t}: parameter {net}.{name} has no gradient at optimizer.step()", t=t, net=net, name=name)
-                            ok_step = False
-                            continue
-                        tol = 1e-9 * max(1.0, float(np.max(np.abs(want))) if want.size else 1.0)
-                        if got.shape != want.shape or not np.allclose(got, want, rtol=0, atol=tol, equal_nan=True):
-                            dev = float(np.nanmax(np.abs(got - want))) if got.shape == want.shape else float("inf")
+                    if e in complete:
+                        if len(recs) != nb:
+                            run.violate("7-count", f"epoch {e}: {len(recs)} batches, expected ceil({N}/{tc['pos_bs']})={nb}", N=N, pos_bs=tc["pos_bs"])
+                        if sorted(got) != want:
+                            missing = len(want) - len(got)
                             run.violate(
-                                "6-grad",
-                                f"step {t}: gradient handed to the optimizer for {net}.{name} deviates from "
-                                f"positive phase - mean effective-energy gradient of the chain end states by {dev:.3e}",
-                                t=t,
-                                net=net,
-                                name=name,
-                                type=scfg["type"],
+                                "7-conserve",
+                                f"epoch {e}: multiset of (row, basis-row) pairs over the positive batches differs from the caller's data"
+                                f" ({len(got)} pairs seen, {len(want)} expected)",
+                                N=N,
+                                pos_bs=tc["pos_bs"],
+                                with_bases=bases is not None,
+                                missing=missing,
                             )
-                            ok_step = False
-                        # plain SGD arithmetic
-                        if opt_name == "sgd" and got.shape == st_["before"][(net, name)].shape:
-                            want_after = st_["before"][(net, name)] - st_["lr"][0] * got
-                            a = st_["after"][(net, name)]
-                            tol2 = 1e-12 * max(1.0, float(np.nanmax(np.abs(want_after))) if want_after.size else 1.0)
-                            if not np.allclose(a, want_after, rtol=0, atol=tol2, equal_nan=True):
-                                run.violate("6-sgd", f"step {t}: {net}.{name} did not move by -lr*grad", t=t, net=net, name=name)
-                                ok_step = False
-                    if ptr != len(vec):
-                        run.violate("6-grad", f"network {net}: {ptr} parameter entries but gradient vector of length {len(vec)}", net=net)
-                if ok_step:
-                    run.probes["steps_refined"] += 1
-            # parameters at the end are the last step's result
-            if steps:
-                final = params_snapshot(state)
-                for k2 in names:
-                    if not np.array_equal(final[k2[0]][k2[1]], steps[-1]["after"][k2]):
-                        run.violate("6-continuity", f"parameter {k2} changed after the last optimizer step")
-                        break
-        elif info["raised"] is None and len(steps) != len(records):
-            run.violate("6-steps", f"{len(steps)} optimizer steps for {len(records)} batches")
+                    else:
+                        # epoch cut short: sub-multiset
+                        pool = list(want)
+                        for kx in got:
+                            if kx in pool:
+                                pool.remove(kx)
+                            else:
+                                run.violate("7-conserve", f"epoch {e} (cut short): pair {kx} used more often than it occurs in the data", N=N, pos_bs=tc["pos_bs"], with_bases=bases is not None)
+                                break
+                    if len(recs) and recs[-1]["samples"].shape[0] < tc["pos_bs"]:
+                        run.probes["tail_batch"] += 1
+                if N < tc["pos_bs"]:
+                    run.probes["N_lt_batch"] += 1
 
-    if info["raised"] is None:
-        protocol.judge(run, items, tc["starting_epoch"], tc["epochs"], N, tc["pos_bs"], flag_after=info["flag_after"])
-    run.trace = trace
-    ne = sum(1 for it in evs if it[1] == "ES")
-    run.nontrivial = len(records) >= 2 or stopped
-    run.sim["epochs"] += ne
-    run.sim["batches"] += n_bs
-    run.sim["gibbs_steps"] += tc["k"] * len(records)
+        # =====================================================================
+        # C06: every step applies exactly the contrastive-divergence update
+        # =====================================================================
+        if judge06 and info["raised"] is None:
+            steps = rec.steps
+            names = [(net, name) for net, name, _ in rec.named()]
+            # --- call schedule: exactly one optimizer.step between BS and its BE; one scheduler.step per epoch
+            seqk = []
+            for ent in log_entries:
+                if ent[0] == "ev":
+                    seqk.append(ent[1])
+                elif ent[0] == "opt":
+                    seqk.append("OPT")
+                elif ent[0] == "sched":
+                    seqk.append("SCH")
+            state_m = "out"
+            opt_in_batch = 0
+            sch_in_epoch = 0
+            last_batch_done = False
+            for kx in seqk:
+                if kx == "BS":
+                    state_m = "batch"
+                    opt_in_batch = 0
+                    if sch_in_epoch:
+                        run.violate("6-sched", "scheduler stepped before the epoch's last batch")
+                        break
+                elif kx == "BE":
+                    if opt_in_batch != 1:
+                        run.violate("6-steps", f"{opt_in_batch} optimizer steps between a batch start and its batch end (expected exactly 1)")
+                        break
+                    state_m = "epoch"
+                elif kx == "OPT":
+                    if state_m != "batch":
+                        run.violate("6-steps", "optimizer.step() called outside a batch-start/batch-end window")
+                        break
+                    opt_in_batch += 1
+                elif kx == "ES":
+                    state_m = "epoch"
+                    sch_in_epoch = 0
+                elif kx == "SCH":
+                    sch_in_epoch += 1
+                elif kx == "EE":
+                    if sched is not None and sch_in_epoch != 1:
+                        run.violate("6-sched", f"scheduler advanced {sch_in_epoch} times in an epoch (expected exactly once)", scheduler=cfg.get("scheduler"))
+                        break
+                    state_m = "out"
+            if captured and len(steps) == len(records):
+                prev_after = initial_flat = {k2: initial[k2[0]][k2[1]] for k2 in names}
+                lr0 = tc["lr"]
+                gamma = cfg["gamma"]
+                for t, (st_, rd, ref, ep) in enumerate(zip(steps, records, refs, epoch_of_record)):
+                    # continuity: nothing but the optimizer moves parameters
+                    for k2 in names:
+                        if not np.array_equal(st_["before"][k2], prev_after[k2]):
+                            run.violate("6-continuity", f"step {t}: parameter {k2} changed outside optimizer.step()", t=t)
+                            break
+                    prev_after = st_["after"]
+                    if st_["n_opt_params"] != len(names):
+                        run.violate("6-params", f"optimizer was given {st_['n_opt_params']} parameters, the state has {len(names)}")
+                    # learning rate schedule
+                    if sched is not None and ep is not None:
+                        want_lr = lr0 * gamma ** (ep - tc["starting_epoch"])
+                    else:
+                        want_lr = lr0
+                    if not close(st_["lr"][0], want_lr, 1e-12):
+                        run.violate("6-sched", f"step {t} (epoch {ep}): learning rate {st_['lr'][0]!r}, expected {want_lr!r}", scheduler=cfg.get("scheduler"))
+                    if ref is None or ref["err"] is not None or ref["pos"] is None:
+                        run.inconclusive["reference_gradient"] += 1
+                        continue
+                    gr = ref["refiner"]
+                    f = ref["formula"]
+                    # --- the negative-phase chain: k steps from the negative batch
+                    k = tc["k"]
+                    vk = rd["vk"]
+                    if gr.status == "mismatch" and seamed:
+                        run.violate("6-chain", f"step {t}: negative-phase chain: {gr.msg}", t=t, k=k)
+                        continue
+                    chain_known = gr.status == "ok" and seamed and gr.pending is None
+                    if chain_known:
+                        if len(ref["hist"]) - 1 != k:
+                            run.violate("6-chain", f"step {t}: negative-phase chain ran {len(ref['hist']) - 1} Gibbs steps from the negative batch, k={k}", t=t, k=k)
+                            continue
+                        v_end = ref["hist"][k]
+                        if vk is not None and not np.array_equal(vk.reshape(v_end.shape), v_end):
+                            run.violate("6-chain", f"step {t}: state used for the negative phase is not the end of the k-step chain from the negative batch", t=t, k=k)
+                            continue
+                    elif vk is not None:
+                        v_end = vk.reshape(-1, nv)
+                        run.inconclusive["chain_structure"] += 1
+                    else:
+                        run.inconclusive["chain_structure"] += 1
+                        continue
+                    nneg = float(rd["neg"].shape[0])
+                    exp_am = ref["pos"][0] - f.eff_energy_grad_sum(v_end) / nneg
+                    expected = {"rbm_am": exp_am}
+                    if len(state.networks) > 1:
+                        expected["rbm_ph"] = ref["pos"][1]
+                    ok_step = True
+                    for net in state.networks:
+                        ptr = 0
+                        vec = expected[net]
+                        for (n2, name, p) in rec.named():
+                            if n2 != net:
+                                continue
+                            num = int(np.prod(p.shape)) if p.dim() else 1
+                            want = vec[ptr : ptr + num].reshape(tuple(p.shape))
+                            ptr += num
+                            got = st_["grad"][(net, name)]
+                            if got is None:
+                                run.violate("6-grad", f"step {t}: parameter {net}.{name} has no gradient at optimizer.step()", t=t, net=net, name=name)
+                                ok_step = False
+                                continue
+                            tol = 1e-9 * max(1.0, float(np.max(np.abs(want))) if want.size else 1.0)
+                            if got.shape != want.shape or not np.allclose(got, want, rtol=0, atol=tol, equal_nan=True):
+                                dev = float(np.nanmax(np.abs(got - want))) if got.shape == want.shape else float("inf")
+                                run.violate(
+                                    "6-grad",
+                                    f"step {t}: gradient handed to the optimizer for {net}.{name} deviates from "
+                                    f"positive phase - mean effective-energy gradient of the chain end states by {dev:.3e}",
+                                    t=t,
+                                    net=net,
+                                    name=name,
+                                    type=scfg["type"],
+                                )
+                                ok_step = False
+                            # plain SGD arithmetic
+                            if opt_name == "sgd" and got.shape == st_["before"][(net, name)].shape:
+                                want_after = st_["before"][(net, name)] - st_["lr"][0] * got
+                                a = st_["after"][(net, name)]
+                                tol2 = 1e-12 * max(1.0, float(np.nanmax(np.abs(want_after))) if want_after.size else 1.0)
+                                if not np.allclose(a, want_after, rtol=0, atol=tol2, equal_nan=True):
+                                    run.violate("6-sgd", f"step {t}: {net}.{name} did not move by -lr*grad", t=t, net=net, name=name)
+                                    ok_step = False
+                        if ptr != len(vec):
+                            run.violate("6-grad", f"network {net}: {ptr} parameter entries but gradient vector of length {len(vec)}", net=net)
+                    if ok_step:
+                        run.probes["steps_refined"] += 1
+                # parameters at the end are the last step's result
+                if steps:
+                    final = F["final"]
+                    for k2 in names:
+                        if not np.array_equal(final[k2[0]][k2[1]], steps[-1]["after"][k2]):
+                            run.violate("6-continuity", f"parameter {k2} changed after the last optimizer step")
+                            break
+            elif info["raised"] is None and len(steps) != len(records):
+                run.violate("6-steps", f"{len(steps)} optimizer steps for {len(records)} batches")
+
+        if info["raised"] is None:
+            protocol.judge(run, items, tc["starting_epoch"], tc["epochs"], N, tc["pos_bs"], flag_after=info["flag_after"])
+        trace_all.append(trace)
+        run.sim["epochs"] += sum(1 for it in evs if it[1] == "ES")
+        run.sim["batches"] += n_bs
+        run.sim["gibbs_steps"] += tc["k"] * len(records)
+        nontrivial_any = nontrivial_any or len(records) >= 2 or stopped
+    run.trace = trace_all
+    run.nontrivial = nontrivial_any
     return run.result()
 
 
@@ -489,7 +507,7 @@ def shrink(plan):
             d[ks[-1]] = v
         return q
 
-    for key, val in (("rng_mode", "honest"), ("perm_mode", "honest"), ("randint_mode", "honest"), ("scheduler", None), ("optimizer", "sgd")):
+    for key, val in (("second_fit", False), ("rng_mode", "honest"), ("perm_mode", "honest"), ("randint_mode", "honest"), ("scheduler", None), ("optimizer", "sgd")):
         if c.get(key) != val:
             out.append(variant(**{key: val}))
     if c["state"]["type"] != "positive":
